@@ -10,7 +10,8 @@ pub mod c14;
 pub mod c17;
 pub mod c18;
 pub mod c19;
+pub mod c20;
 
 pub fn all() -> Vec<PropertyMeta> {
-    vec![c03::meta(), c07::meta(), c08::meta(), c09::meta(), c12::meta(), c14::meta(), c17::meta(), c18::meta(), c19::meta()]
+    vec![c03::meta(), c07::meta(), c08::meta(), c09::meta(), c12::meta(), c14::meta(), c17::meta(), c18::meta(), c19::meta(), c20::meta()]
 }
